@@ -347,8 +347,10 @@ func TestVerif_C11(t *testing.T) {
 					regions := map[string]bool{}
 					for j := 0; j < k; j++ {
 						p := rng.IntN(total)
-						old := mod[p]
-						for mod[p] == old {
+						for mod[p] != orig[p] { // a position that was not changed yet (a second change could restore the byte)
+							p = rng.IntN(total)
+						}
+						for mod[p] == orig[p] {
 							mod[p] = byte(rng.Uint32())
 						}
 						regions[c11Region(p, total, size, tagLen)] = true
